@@ -24,6 +24,13 @@ for d in sorted(os.listdir("/verif/seeded")):
         sh("git checkout -- .", "/repo")
     print(d, res[d]["exit"], "caught" if res[d].get("caught") else "MISSED", flush=True)
 json.dump(res, open("/verif/seeded/REGRESS.json", "w"), indent=1)
-missed = [d for d, v in res.items() if not v.get("caught")]
+expected = set(l.split()[0] for l in open("/verif/seeded/EXPECTED_MISSES.txt") if l.strip() and not l.startswith("#"))
+for d in expected:
+    if d in res:
+        res[d]["expected_miss"] = True
+        if res[d].get("caught"):
+            print(d, "listed as an expected miss but caught")
+json.dump(res, open("/verif/seeded/REGRESS.json", "w"), indent=1)
+missed = [d for d, v in res.items() if not v.get("caught") and d not in expected]
 print("missed:", missed)
 sys.exit(1 if missed else 0)
